@@ -187,7 +187,11 @@ def check_source(ctx, src, tag, cli_dir=None):
             return
     if not compare_echo(ctx, src, echo, case):
         return
-    if tag in ('program', 'head'):
+    if tag in ('program', 'head') or (tag == 'string' and (b'\n' in src.rstrip(b'\n') or b'\r' in src)):
+        # (string-enumerator sources that span lines - backslash-newline inside quotes, long brackets over lines - also go through the
+        # Lua object fed line by line)
+        if tag == 'string':
+            ctx.feature('multi_line_literals_through_line_fed_objects')
         if not object_histories(ctx, src, case):
             return
     if cli_dir is not None and b'\r\n' in src and b'\r' not in src.replace(b'\r\n', b''):
